@@ -210,6 +210,69 @@ class InlineTemps(ast.NodeTransformer):
         return node
 
 
+class ReorderMethods(ast.NodeTransformer):
+    """the undecorated methods of a class (other than __init__-like dunders used during class creation) in reverse order;
+    every other statement of the class body stays where it is"""
+
+    def visit_ClassDef(self, node):
+        self.generic_visit(node)
+        idx = [i for i, st in enumerate(node.body) if isinstance(st, ast.FunctionDef) and not st.decorator_list and st.name not in ("__init_subclass__", "__class_getitem__")]
+        # only when nothing but functions refers to them at class-creation time: no non-function statement after the first method
+        if len(idx) >= 2 and all(isinstance(st, (ast.FunctionDef, ast.Expr, ast.Pass)) or i < idx[0] for i, st in enumerate(node.body)):
+            funcs = [node.body[i] for i in idx][::-1]
+            for i, f in zip(idx, funcs):
+                node.body[i] = f
+        return node
+
+
+class LastArgKeyword(ast.NodeTransformer):
+    """`f(a, b)` -> `f(a, <param>=b)` for calls by plain name of a function / class that this repository defines exactly once
+    (module-level def, or class with an __init__), when the callee has no *args and the argument is not starred"""
+
+    SIGS = None
+
+    @classmethod
+    def load(cls, root):
+        sigs, seen = {}, {}
+        for dp, _dn, fns in os.walk(os.path.join(root, "pyteal")):
+            for fn in fns:
+                if not fn.endswith(".py") or fn.endswith("_test.py"):
+                    continue
+                try:
+                    t = ast.parse(open(os.path.join(dp, fn)).read())
+                except SyntaxError:
+                    continue
+                for st in t.body:
+                    f, skip = None, 0
+                    if isinstance(st, ast.FunctionDef):
+                        f = st
+                    elif isinstance(st, ast.ClassDef):
+                        f = next((x for x in st.body if isinstance(x, ast.FunctionDef) and x.name == "__init__"), None)
+                        skip = 1
+                        if any(isinstance(b, ast.Name) and b.id in ("Enum", "IntEnum", "Flag", "NamedTuple") for b in st.bases) or st.decorator_list:
+                            f = None
+                    if f is None:
+                        if isinstance(st, (ast.FunctionDef, ast.ClassDef)):
+                            seen[st.name] = seen.get(st.name, 0) + 1
+                        continue
+                    seen[st.name] = seen.get(st.name, 0) + 1
+                    a = f.args
+                    if a.vararg or a.posonlyargs or (isinstance(st, ast.FunctionDef) and st.decorator_list):
+                        continue
+                    sigs[st.name] = [x.arg for x in a.args][skip:]
+        cls.SIGS = {k: v for k, v in sigs.items() if seen.get(k) == 1}
+
+    def visit_Call(self, node):
+        self.generic_visit(node)
+        if isinstance(node.func, ast.Name) and node.func.id in (self.SIGS or {}) and node.args and not any(isinstance(a, ast.Starred) for a in node.args) and not any(k.arg is None for k in node.keywords):
+            params = self.SIGS[node.func.id]
+            i = len(node.args) - 1
+            if i < len(params) and params[i] not in {k.arg for k in node.keywords}:
+                v = node.args.pop()
+                node.keywords.insert(0, ast.keyword(arg=params[i], value=v))
+        return node
+
+
 class ElseAfterReturn(ast.NodeTransformer):
     """`if c: ...return/raise` followed by the rest of the block -> the rest moves into an else branch"""
 
@@ -267,6 +330,12 @@ def transform(src: str, which: str) -> str:
         tree = SplitAnd().visit(tree)
     if which == "elseafter":
         tree = ElseAfterReturn().visit(tree)
+    if which == "lastkw":
+        if LastArgKeyword.SIGS is None:
+            LastArgKeyword.load("/repo")
+        tree = LastArgKeyword().visit(tree)
+    if which == "reorder":
+        tree = ReorderMethods().visit(tree)
     if which == "inlinetemps":
         tree = InlineTemps().visit(tree)
     if which == "demorgan":
